@@ -46,6 +46,9 @@ func NewSparseIntVector(indices []int, values []int, n int) *SparseIntVector {
   }
   r := nilSparseIntVector(n)
   for i, k := range indices {
+    if k < 0 {
+      panic("negative index")
+    }
     if k >= n {
       panic("index larger than vector dimension")
     }
